@@ -28,6 +28,22 @@ Z1 = z3.RealVal(1)
 Z0 = z3.RealVal(0)
 
 
+def guarded_check(solver, *args, seconds=30.0):
+    """solver.check with a watchdog: z3's own timeout is not always honoured inside nlsat, so a timer
+    thread interrupts the context; an interrupted check answers unknown"""
+    import threading
+    t = threading.Timer(seconds, lambda: z3.main_ctx().interrupt())
+    t.daemon = True
+    t.start()
+    try:
+        try:
+            return solver.check(*args)
+        except z3.Z3Exception:
+            return z3.unknown
+    finally:
+        t.cancel()
+
+
 class Inconclusive(BaseException):
     """z3 answered unknown / budget exhausted: the run may not report success."""
 
@@ -64,6 +80,7 @@ class Explorer:
     def __init__(self, prefix=(), logic="QF_NRA", timeout_ms=8000, max_branches=4000, shard=None):
         self.solver = z3.SolverFor(logic) if logic else z3.Solver()
         self.solver.set("timeout", timeout_ms)
+        self.timeout_ms = timeout_ms
         self.decisions = [list(d) for d in prefix]  # [kind, value, n, exhausted]
         self.pos = 0
         self.queries = 0
@@ -90,7 +107,7 @@ class Explorer:
         t = time.time()
         self.queries += 1
         self._last_model_solver = self.solver
-        r = self.solver.check(*extra)
+        r = guarded_check(self.solver, *extra, seconds=self.timeout_ms / 1000.0 + 5)
         if r == z3.unknown:
             r = self._retry(extra)
         self.solver_time += time.time() - t
@@ -113,7 +130,7 @@ class Explorer:
             s = mk()
             s.set("timeout", self.retry_timeout_ms)
             s.add(asserts)
-            r = s.check()
+            r = guarded_check(s, seconds=self.retry_timeout_ms / 1000.0 + 5)
             if r != z3.unknown:
                 self._last_model_solver = s
                 return r
